@@ -198,6 +198,12 @@ def _reassign_observe(obj, pts):
         out["logpdf"] = obs_call(lambda: obj.logpdf(x)) if i == 0 else out["logpdf"]
         out["logd-minus-logpdf"] = obs_call(lambda: np.asarray(obj.logd(x), float) - np.asarray(obj.logpdf(x), float)) if i == 1 else out.get("logd-minus-logpdf", ("exc", "-"))
     out["cdf"] = obs_call(lambda: obj.cdf(pts[0])) if obj.dim <= 2 else ("exc", "skipped")
+    if hasattr(type(obj), "compute_cov") and obj.dim <= 6:
+        # the covariance the object reports: the cached/explicit one when available, else the computed one
+        c = obs_call(lambda: obj.cov)
+        out["cov"] = c if c[0] == "val" and c[1].ndim == 2 and c[1].shape[0] == obj.dim else obs_call(lambda: obj.compute_cov())
+    else:
+        out["cov"] = ("exc", "skipped")
     return out
 
 
